@@ -79,6 +79,7 @@ class Gen:
         self.in_forall = 0
         self.unit_kind = None
         self.block_ok = std == "f2008"
+        self.has_tpar = False
 
     # ------------------------------------------------------------------ helpers
     def feat(self, f):
@@ -367,6 +368,19 @@ class Gen:
                 ("%s = [%s, %s]" % ("aVec(1:2)", self.rexpr(1), self.rexpr(1)) if self.std == "f2008"
                  else "%s = (/ %s, %s /)" % ("aVec(1:2)", self.rexpr(1), self.rexpr(1)), "assign"),
                 ("%s = (/ (real(%s), %s = 1, 10) /)" % ("aVec", "iCnt", "iCnt"), "assign"),
+                ("call subOne(*110, %s)" % self.rvar(), "call_alt_return"),
+                ("ptrR(1:%s) => aVec" % self.ivar(), "bounds_remapping"),
+                ("ptrR(2:) => cBuf", "bounds_spec"),
+                ("deallocate(dynA, stat = %s)" % self.ivar(), "deallocate"),
+                ("objA = typPoint(fldA = %s, fldB = 2.0)" % self.rexpr(1), "structure_constructor"),
+                ("objA = typPoint(1.0, %s)" % self.rexpr(1), "structure_constructor"),
+                ("%s = kind(xPos) + len(%s) + xPos%%kind" % (self.ivar(), self.ch(NAMES_CHR)), "type_param_inquiry"),
+                ("%s = %s(2:4) // %s(:3) // %s(%s:)" % (self.ch(NAMES_CHR), "cName", "sTxt", "cName", self.ivar()), "substring"),
+                ("call objA%%pcmp(%s)" % self.rexpr(1), "proc_component_ref"),
+                ("%s = cmplx(1.0, 2.0) * (0.5, -1.5e0)" % "cplxZ", "complex_literal"),
+                ("%s = %s(1:%s:2) + %s(:)" % ("aVec(1:5)", "cBuf", "10", "aVec"), "array_section"),
+                ("%s = bMat(1, :) * bMat(:, 2)" % "aVec", "array_section"),
+                ("%s = iand(%s, z'ff')" % (self.ivar(), self.ivar()), "boz"),
             ])
         return self.assign(), "assign"
 
@@ -642,6 +656,10 @@ class Gen:
                     self.emit("use %s" % u, kind="use")
                 else:
                     self.emit("use %s, only: %s" % (u, self.ch(["nShared", "nShared, localR => rShared"])), kind="use_only")
+        if self.p(0.12):
+            self.emit(self.ch(["use, intrinsic :: iso_c_binding, only: c_int, c_double",
+                               "use, intrinsic :: iso_fortran_env", "use, non_intrinsic :: userMod, only: opr => myop",
+                               "use :: iso_c_binding, only: operator(+), assignment(=)"]), kind="use_nature")
         r0 = self.r.random()
         if r0 < 0.65:
             self.emit("implicit none", kind="implicit")
@@ -662,6 +680,8 @@ class Gen:
             c = self.newcid()
             self.emit("type :: typPoint", role="open", kind="derived_type", cid=c)
             self.depth += 1
+            if self.p(0.2):
+                self.emit(self.ch(["sequence", "private"]), kind="type_attr_stmt")
             self.emit("real :: fldA", kind="component")
             self.emit("real :: fldB(3)", kind="component")
             if self.p(0.3):
@@ -712,7 +732,9 @@ class Gen:
                 self.emit("final :: subTwo", kind="final_binding")
             self.depth -= 1
             self.emit("end type tBound", role="close", kind="end_type", cid=c)
+        self.has_tpar = False
         if self.p(0.15):
+            self.has_tpar = True
             c = self.newcid()
             self.emit("type :: tPar(kp, np)", role="open", kind="derived_type", cid=c)
             self.depth += 1
@@ -754,7 +776,26 @@ class Gen:
             ("character(len = 3), dimension(2) :: cTab = (/ 'abc', 'd''f' /)", "decl_char"),
             ("real, dimension(:, :), allocatable :: grid2", "decl"),
             ("integer(kind = selected_int_kind(9)) :: bigI", "decl_kind"),
+            ("real :: asz(*)", "assumed_size"),
+            ("real :: asz2(2, 0:*)", "assumed_size"),
+            ("character*10 :: cOld", "char_length"),
+            ("character :: cLen*5, cLen2*(*)", "char_length"),
+            ("character(10, kind = 1) :: cSel", "char_selector"),
+            ("character(len = 5, kind = 1) :: cSel2", "char_selector"),
+            ("character(kind = 1, len = *) :: cSel3", "char_selector"),
+            ("complex, parameter :: cZ = (1.0, -2.0e0)", "complex_literal"),
+            ("integer, parameter :: bozK = b'1010' + o'17' + z'1f'", "boz"),
+            ("data (aVec(iCnt), iCnt = 1, 5) /5*0.0/", "data_implied_do"),
+            ("data ((bMat(iCnt, jIdx), iCnt = 1, 2), jIdx = 1, 3) /6*1.5/", "data_implied_do"),
+            ("data kk, mVal /-1, +2/", "data_signed"),
+            ("data zz /-1.5e0/, wRk /+.5/", "data_signed"),
+            ("real, pointer :: pNul => null()", "null_init"),
+            ("save /cmnBlk/, svQ", "saved_entity"),
+            ("integer, dimension(-1:1, 0:2) :: lbArr", "explicit_shape"),
+            ("real, dimension(:), pointer :: ptrV", "deferred_shape"),
         ]
+        if self.has_tpar:
+            extras += [("type(tPar(4, 10)) :: parV", "type_param_spec"), ("type(tPar(np = 3)) :: parW", "type_param_spec")]
         if self.unit_kind in ("subroutine", "function"):
             extras += [("intent(in) :: argA", "intent_stmt"), ("optional :: argB", "optional_stmt"),
                        ("value :: argB", "value_stmt")]
@@ -789,7 +830,12 @@ class Gen:
             self.depth -= 1
             self.emit("end interface%s" % (" ifaceG" if gen else ""), role="close", kind="end_interface", cid=c)
         if self.p(0.3):
-            self.emit("format (1x, a, i5, f10.3, 2(e12.4, 1x))", label=900, kind="format")
+            self.emit(self.ch(["format (1x, a, i5, f10.3, 2(e12.4, 1x))",
+                               "format (i5, 2x, f8.3, /, t10, a, :, 1p, e12.4, sp, i3, ss, i4)",
+                               "format (bn, i4, bz, i4, tl2, tr3, 3(1x, i2), '(lit)', //, a10)",
+                               "format ('it''s', 1x, es12.4e2, en10.3, g12.5, l2, b8.4, o6, z8, d10.3)",
+                               "format (2(1x, 3(i2, ','), a), dc, f6.2, dp, ru, f6.2, rz, f5.1)"]),
+                      label=900, kind="format")
         if self.p(0.12):
             self.emit("sfun(zz) = zz * 2.0 + %s" % self.real_lit(), kind="stmt_function")
 
